@@ -414,45 +414,120 @@ func ruleTLSUse(c *Ctx) {
 				}
 			}
 		}
-		var insecure, creds, dial *Node
+		// The option idioms accepted:
+		//   WithTransportCredentials(NewTLS(tls))            direct
+		//   V = NewTLS(tls) ... WithTransportCredentials(V)   through a local V
+		// Anything else that selects transport security (WithInsecure, other
+		// credentials, another value stored in V) counts as insecure.
+		isNewTLS := func(e ast.Expr) bool {
+			inner, ok := ast.Unparen(e).(*ast.CallExpr)
+			return ok && p.CalleeName(d, inner) == "google.golang.org/grpc/credentials.NewTLS" && len(inner.Args) == 1 && identObj(info, inner.Args[0]) == tlsP && tlsP != nil
+		}
+		var credVar *types.Var
+		var useNode *Node
+		for _, m := range g.Nodes {
+			for _, call := range callsIn(m.Ast) {
+				if p.CalleeName(d, call) == "google.golang.org/grpc.WithTransportCredentials" && len(call.Args) == 1 {
+					if v, ok := identObj(info, call.Args[0]).(*types.Var); ok && !v.IsField() && v.Parent() != nil && v.Parent() != d.Pkg.Types.Scope() {
+						credVar, useNode = v, m
+					}
+				}
+			}
+		}
+		var insecure, creds []*Node
+		var dial *Node
 		for _, m := range g.Nodes {
 			for _, call := range callsIn(m.Ast) {
 				switch p.CalleeName(d, call) {
 				case "google.golang.org/grpc.WithInsecure":
-					insecure = m
+					insecure = append(insecure, m)
 				case "google.golang.org/grpc.WithTransportCredentials":
-					if inner, ok := ast.Unparen(call.Args[0]).(*ast.CallExpr); ok && p.CalleeName(d, inner) == "google.golang.org/grpc/credentials.NewTLS" && identObj(info, inner.Args[0]) == tlsP {
-						creds = m
+					if len(call.Args) == 1 && isNewTLS(call.Args[0]) {
+						creds = append(creds, m)
+					} else if len(call.Args) == 1 && credVar != nil && identObj(info, call.Args[0]) == credVar {
+						// decided through the assignments to V below
+					} else {
+						insecure = append(insecure, m)
 					}
 				case "google.golang.org/grpc.Dial", "google.golang.org/grpc.DialContext", "google.golang.org/grpc.NewClient":
 					dial = m
 				}
 			}
-		}
-		ok := tlsP != nil && creds != nil && dial != nil
-		if ok && insecure != nil {
-			ok = g.OnlyViaEdge(insecure, func(e *Edge) bool {
-				at, isAt := edgeAtom(info, e)
-				return isAt && at.Kind == "nil" && at.Op == token.EQL && identObj(info, at.X) == tlsP
-			})
-		}
-		if ok {
-			// with tls != nil every path to Dial passes the credentials option
-			for _, m := range g.Nodes {
-				for _, e := range m.Succs {
-					at, isAt := edgeAtom(info, e)
-					if isAt && at.Kind == "nil" && at.Op == token.NEQ && identObj(info, at.X) == tlsP {
-						seen := g.Reach([]*Node{e.To}, func(x *Node) bool { return x == creds }, nil)
-						if _, r := seen[dial]; r {
-							ok = false
+			if credVar != nil {
+				for _, as := range assignsIn(m.Ast) {
+					for k, l := range as.lhs {
+						if identObj(info, l) != credVar && info.Defs[identOf(l)] != credVar {
+							continue
+						}
+						if k < len(as.rhs) && len(as.rhs) == len(as.lhs) && isNewTLS(as.rhs[k]) {
+							creds = append(creds, m)
+						} else {
+							insecure = append(insecure, m)
 						}
 					}
 				}
 			}
-			// and the nil test is on every path to Dial
-			seen := g.Reach([]*Node{g.Entry}, func(x *Node) bool { return x == creds || x == insecure }, nil)
+		}
+		isCreds := func(x *Node) bool {
+			for _, m := range creds {
+				if m == x {
+					return true
+				}
+			}
+			return false
+		}
+		tlsNilEdge := func(e *Edge) bool {
+			at, isAt := edgeAtom(info, e)
+			return isAt && at.Kind == "nil" && at.Op == token.EQL && identObj(info, at.X) == tlsP
+		}
+		ok := tlsP != nil && len(creds) > 0 && dial != nil
+		if ok {
+			// assuming tls != nil: every path to Dial installs NewTLS(tls) ...
+			seen := g.Reach([]*Node{g.Entry}, isCreds, tlsNilEdge)
 			if _, r := seen[dial]; r {
 				ok = false
+			}
+			// ... and nothing insecure is selected after it (or instead of it)
+			feasible := g.Reach([]*Node{g.Entry}, nil, tlsNilEdge)
+			for _, i := range insecure {
+				if _, r := feasible[i]; !r || isCreds(i) {
+					continue
+				}
+				after := g.ReachAfter(i, isCreds, tlsNilEdge)
+				if _, r := after[dial]; r {
+					ok = false
+				}
+			}
+			// through a local: the option carrying V is on every path to Dial
+			// and V is not overwritten between NewTLS and that use
+			if useNode != nil && ok {
+				seenU := g.Reach([]*Node{g.Entry}, func(x *Node) bool { return x == useNode }, tlsNilEdge)
+				if _, r := seenU[dial]; r {
+					// the direct form may still cover the path
+					seenD := g.Reach([]*Node{g.Entry}, func(x *Node) bool {
+						if x == useNode {
+							return true
+						}
+						for _, call := range callsIn(x.Ast) {
+							if p.CalleeName(d, call) == "google.golang.org/grpc.WithTransportCredentials" && len(call.Args) == 1 && isNewTLS(call.Args[0]) {
+								return true
+							}
+						}
+						return false
+					}, tlsNilEdge)
+					if _, r2 := seenD[dial]; r2 {
+						ok = false
+					}
+				}
+				for _, i := range insecure {
+					if _, r := feasible[i]; !r || isCreds(i) || i == useNode {
+						continue
+					}
+					after := g.ReachAfter(i, isCreds, tlsNilEdge)
+					if _, r := after[useNode]; r {
+						ok = false
+					}
+				}
 			}
 		}
 		if ok {
@@ -741,4 +816,34 @@ func ruleEnvCertOnly(c *Ctx) {
 			}
 		}
 	}
+}
+
+type assignPair struct{ lhs, rhs []ast.Expr }
+
+// assignsIn lists the assignments and var declarations directly in a node's
+// statement (not inside nested function literals).
+func assignsIn(n ast.Node) []assignPair {
+	var out []assignPair
+	if n == nil {
+		return nil
+	}
+	walkNoLit(n, func(x ast.Node) bool {
+		switch s := x.(type) {
+		case *ast.AssignStmt:
+			out = append(out, assignPair{s.Lhs, s.Rhs})
+		case *ast.ValueSpec:
+			var l []ast.Expr
+			for _, nm := range s.Names {
+				l = append(l, nm)
+			}
+			out = append(out, assignPair{l, s.Values})
+		}
+		return true
+	})
+	return out
+}
+
+func identOf(e ast.Expr) *ast.Ident {
+	id, _ := ast.Unparen(e).(*ast.Ident)
+	return id
 }
